@@ -135,4 +135,74 @@ theorem ltEraseAt_spec [DecidableEq κ] (c : Cfg κ) (t : Table κ ν) (m : AMap
     exact Store.get_set_other c.S t.cur b s b' s' none hs (fun hh => hne (by rw [hh.1, hh.2]))
   · exact Store.get_set_same c.S t.cur b s none hs hlt
 
+/-! ### the remaining lookup members of the locked table: `count`, `at`, `equal_range`, `operator[]` -/
+
+/-- a stored key is never found at `end()` -/
+private theorem ltFind_ne_end [DecidableEq κ] (c : Cfg κ) (t : Table κ ν) (m : AMap κ ν) (k : κ) (v : ν) (h : Inv c t)
+    (hr : Rel c t m) (hl : AllMig t) (hlk : m.lookup k = some v) :
+    t.ltFind c k ≠ t.cur.endPos ∧ ∃ sl, t.cur.get c.S (t.ltFind c k).1 (t.ltFind c k).2 = some sl ∧ sl.key = k ∧ sl.val = v := by
+  have hf := ltFind_agrees c t m k h hr hl
+  rw [hlk] at hf
+  obtain ⟨sl, hg, hk, hv⟩ := hf
+  refine ⟨fun he => ?_, sl, hg, hk, hv⟩
+  rw [he] at hg
+  have := Store.get_some_bucket_lt h.cur_wf.size hg
+  simp [Store.endPos] at this
+
+/-- `count(key)` is 1 for a stored key and 0 otherwise -/
+theorem ltCount_agrees [DecidableEq κ] (c : Cfg κ) (t : Table κ ν) (m : AMap κ ν) (k : κ) (h : Inv c t) (hr : Rel c t m)
+    (hl : AllMig t) : t.ltCount c k = if (m.lookup k).isSome then 1 else 0 := by
+  unfold Table.ltCount
+  cases hlk : m.lookup k with
+  | some v => simp [(ltFind_ne_end c t m k v h hr hl hlk).1]
+  | none =>
+    have hf := ltFind_agrees c t m k h hr hl
+    rw [hlk] at hf
+    simp [hf]
+
+/-- `at(key)` returns the value stored under the key and throws `std::out_of_range` exactly when the key is absent -/
+theorem ltAt_agrees [DecidableEq κ] (c : Cfg κ) (t : Table κ ν) (m : AMap κ ν) (k : κ) (h : Inv c t) (hr : Rel c t m)
+    (hl : AllMig t) :
+    t.ltAt c k = (match m.lookup k with | some v => .ok v | none => .err .outOfRange) := by
+  unfold Table.ltAt
+  cases hlk : m.lookup k with
+  | some v =>
+    obtain ⟨hne, sl, hg, _, hv⟩ := ltFind_ne_end c t m k v h hr hl hlk
+    simp [hne, hg, hv]
+  | none =>
+    have hf := ltFind_agrees c t m k h hr hl
+    rw [hlk] at hf
+    simp [hf]
+
+/-- `equal_range(key)`: for a stored key the half-open range `[find(key), successor)` — exactly that one element in
+iteration order —, for an absent key the empty range `(end, end)` -/
+theorem ltEqualRange_agrees [DecidableEq κ] (c : Cfg κ) (t : Table κ ν) (m : AMap κ ν) (k : κ) (h : Inv c t) (hr : Rel c t m)
+    (hl : AllMig t) :
+    match m.lookup k with
+    | some _ => t.ltEqualRange c k = (t.ltFind c k, t.cur.itNext c.S (t.ltFind c k)) ∧ t.ltFind c k ≠ t.cur.endPos
+    | none => t.ltEqualRange c k = (t.cur.endPos, t.cur.endPos) := by
+  unfold Table.ltEqualRange
+  cases hlk : m.lookup k with
+  | some v =>
+    have hne := (ltFind_ne_end c t m k v h hr hl hlk).1
+    simp [hne]
+  | none =>
+    have hf := ltFind_agrees c t m k h hr hl
+    rw [hlk] at hf
+    simp [hf]
+
+/-- `operator[](key)`: a reference to the value stored under the key, which is the old value if the key was there and
+a freshly inserted default-constructed one otherwise (possibly after growing the table) -/
+theorem ltIndex_agrees [DecidableEq κ] (c : Cfg κ) (t : Table κ ν) (m : AMap κ ν) (k : κ) (dflt : ν) (h : Inv c t)
+    (hr : Rel c t m) (hl : AllMig t) :
+    Inv c (t.ltIndex c k dflt).1 ∧ AllMig (t.ltIndex c k dflt).1 ∧
+    match (t.ltIndex c k dflt).2 with
+    | .err e => ResizeErr e ∧ Rel c (t.ltIndex c k dflt).1 m
+    | .ok (p, inserted) =>
+      inserted = (m.lookup k).isNone ∧
+      Rel c (t.ltIndex c k dflt).1 (if inserted then m.add k dflt else m) ∧
+      ∃ sl, (t.ltIndex c k dflt).1.cur.get c.S p.1 p.2 = some sl ∧ sl.key = k ∧
+        sl.val = (match m.lookup k with | some old => old | none => dflt) :=
+  C02.ltInsert_refines c t m k dflt h hr hl
+
 end Cuckoo.Props.C09
